@@ -17,7 +17,9 @@ import (
 // c10Vals: JSON spellings of operand values; "" = absent. The second group are number
 // spellings that are not Go's shortest formatting (only used where the property allows).
 var c10Vals = []string{"", "1", "2", "1.5", "-1", `"a"`, `"1"`, "true", "false", "null", "{}", "[1]", `{"a":1}`, `{"x":null}`, `{"y":null}`, `[null]`}
-var c10OddNumbers = []string{"1.0", "1e0", "100e-2", "2.000", "0.15e1", "1.0000000000000002", "0.9999999999999999"}
+var c10OddNumbers = []string{"1.0", "1e0", "100e-2", "2.000", "0.15e1", "1.0000000000000002", "0.9999999999999999",
+	// integers that do not fit int64 / have 19 digits (hand-written integer fast paths wrap)
+	"9223372036854775808", "9999999999999999999", "-9223372036854775809"}
 
 type c10Job struct {
 	atoms []*gen.Query
@@ -257,7 +259,7 @@ func init() {
 			"relational oracle: the json.Number decoding of the same JSON text selects the same members as the float64 decoding; number spellings other than Go's shortest ('1.0', '1e0', '100e-2', '2.000', '0.15e1') are used except where two paths are compared with == / !=",
 		},
 		Bounds: map[string]string{
-			"quick":    "219 atoms x operand values from {absent,1,2,1.5,-1,\"a\",\"1\",true,false,null,{},[1],{\"a\":1},{\"x\":null},{\"y\":null},[null]} plus 5 odd number spellings and the two floats adjacent to 1 for each of @.a, @.b, $.a, $.b (at most one odd spelling per document, or @.a and $.a both odd) x 2 decodings; plus string literals: every string of <=3 chunks (14-chunk alphabet with quotes, backslash, slash, space, newline, non-ASCII; third chunk from 4) in both quote styles, both operand orders, ==, !=, literal==literal, $-path==literal and as an escaped regular expression, against 7 near-miss members",
+			"quick":    "219 atoms x operand values from {absent,1,2,1.5,-1,\"a\",\"1\",true,false,null,{},[1],{\"a\":1},{\"x\":null},{\"y\":null},[null]} plus 5 odd number spellings, the two floats adjacent to 1 and three integers beyond int64 (2^63, 9999999999999999999, -2^63-1) for each of @.a, @.b, $.a, $.b (at most one odd spelling per document, or @.a and $.a both odd) x 2 decodings; plus string literals: every string of <=3 chunks (14-chunk alphabet with quotes, backslash, slash, space, newline, non-ASCII; third chunk from 4) in both quote styles, both operand orders, ==, !=, literal==literal, $-path==literal and as an escaped regular expression, against 7 near-miss members",
 			"thorough": "same as quick (the space is enumerated completely in both tiers)",
 		},
 		New: newC10,
